@@ -26,6 +26,7 @@ private:
   int64 mdata[3]; // sizeof(pthread_mutex_t)
   #endif
   bool signaled;
+  uint setCount; // incremented by set(), so that threads waiting at that time are released even if a reset() follows before they run
 #endif
 
   Signal(const Signal&);
